@@ -19,7 +19,7 @@ ENGINE = "E3 explicit-state search over all ordinate-answer sequences on the rea
 RULE = (
     "case = (bracket, epsilon, tolerance, end ordinates, ordinate alphabet); inside a case every answer "
     "sequence is explored until is_converged (complete tree) or the stated depth cap; states = tree nodes "
-    "(finder states reached by distinct answer sequences; the search is stateless), transitions = get_next_abscissa+provide_ordinate pairs. "
+    "(distinct finder states: the attribute tuple (a, b, fa, fb, c, d, fc, bisection) is hashed and a state is expanded once), transitions = get_next_abscissa+provide_ordinate pairs. "
     "Second family: named functions x strategies through both driving protocols."
 )
 ASSUMPTIONS = [
@@ -30,6 +30,8 @@ CHUNK = 1
 ALPH4 = [1.0, -1.0, 0.3, -0.3]
 ALPH6 = ALPH4 + [1e-3, -1e-3]
 ALPH9 = ALPH6 + [0.0, 1e-9, -1e-9]
+ALPH7 = ALPH6 + [0.0]
+ALPH5 = ALPH4 + [0.0]
 
 
 def _tree_cases(tier):
@@ -47,20 +49,30 @@ def _tree_cases(tier):
         ]
         epss = [1.0, 1e-6]
     else:
+        # sized from measured tree sizes: with a small epsilon interpolation steps are accepted more often and the trees get deep
+        # (a 9-letter alphabet then exceeds 10^8 states), so those rows use the 7- or 5-letter alphabet that still contains the exact zero
+        E1, ES, EA = [1.0], [1e-6, 1e-3], [1.0, 1e-6, 1e-3]
         plan = [
-            ((0.0, 1.0), 1.0 / 64, ALPH6, 60),
-            ((0.0, 16.0), 1.0, ALPH9, 60),
-            ((5.0, 25.0), 1.0, ALPH9, 60),
-            ((-3.0, 4.0), 1.0, ALPH9, 60),
-            ((100.0, 116.0), 1.0, ALPH9, 60),
-            ((0.0, 2.0), 1.0, ALPH9, 60),
-            ((0.0, 20.0), 1.0, ALPH6, 60),
-            ((0.0, 1e-3), 1e-3 / 16, ALPH6, 60),
-            ((0.0, 1.0), 1e-3, ALPH4, 10),
-            ((0.0, 16.0), 1e-3, ALPH4, 10),
+            ((0.0, 1.0), 1.0 / 64, ALPH6, 60, E1),
+            ((0.0, 1.0), 1.0 / 64, ALPH5, 60, ES),
+            ((0.0, 16.0), 1.0, ALPH9, 60, E1),
+            ((0.0, 16.0), 1.0, ALPH7, 60, ES),
+            ((5.0, 25.0), 1.0, ALPH9, 60, E1),
+            ((5.0, 25.0), 1.0, ALPH7, 60, ES),
+            ((-3.0, 4.0), 1.0, ALPH9, 60, EA),
+            ((100.0, 116.0), 1.0, ALPH9, 60, E1),
+            ((100.0, 116.0), 1.0, ALPH7, 60, ES),
+            ((0.0, 2.0), 1.0, ALPH9, 60, EA),
+            ((0.0, 20.0), 1.0, ALPH6, 60, EA),
+            ((0.0, 1e-3), 1e-3 / 16, ALPH6, 60, EA),
+            ((0.0, 1.0), 1e-3, ALPH4, 10, EA),
+            ((0.0, 16.0), 1e-3, ALPH4, 10, EA),
         ]
-        epss = [1.0, 1e-6, 1e-3]
         ends = ends + [(1e-9, -1.0), (-1.0, 1e-9)]
+        for (br, tol, alph, cap, epss), (fs, fe) in itertools.product(plan, ends):
+            for eps in epss:
+                yield {"family": "tree", "bracket": list(br), "tol": tol, "eps": eps, "f_start": fs, "f_end": fe, "alphabet": alph, "depth_cap": cap}
+        return
     for (br, tol, alph, cap), eps, (fs, fe) in itertools.product(plan, epss, ends):
         yield {"family": "tree", "bracket": list(br), "tol": tol, "eps": eps, "f_start": fs, "f_end": fe, "alphabet": alph, "depth_cap": cap}
 
@@ -92,7 +104,7 @@ def _func_cases(tier):
 def bounds(tier, seed):
     return {
         "tree_cases": len(list(_tree_cases(tier))),
-        "ordinate_alphabets": {"ALPH4": ALPH4, "ALPH6": ALPH6, "ALPH9": ALPH9},
+        "ordinate_alphabets": {"ALPH4": ALPH4, "ALPH6": ALPH6, "ALPH9": ALPH9, "ALPH7": ALPH7, "ALPH5": ALPH5},
         "functions": list(FUNCS) + ["step at every 1/8 grid point (both directions)"],
         "strategies": ["same_as_a", "alternate", "keep_large", "creep_tiny", "creep_to_a"],
         "strategy_horizon": 5000,
@@ -144,10 +156,18 @@ def _run_tree(case):
     tol, eps, alph, cap = case["tol"], case["eps"], case["alphabet"], case["depth_cap"]
     root = BrentsRootFinder(start=lo, end=hi, f_start=case["f_start"], f_end=case["f_end"], epsilon=eps)
     stack = [(root, 0, None)]
-    nodes = transitions = leaves = capped = 0
+    nodes = transitions = leaves = capped = merged = 0
     maxdepth = 0
+    # explicit-state: the finder's future depends only on its attribute tuple (tolerance and alphabet are fixed per case), so a state
+    # reached again at the same or a larger depth is not expanded a second time (its subtree was checked, or is being checked, already)
+    seen = {}
     while stack:
         rf, depth, path = stack.pop()
+        key = _state(rf)
+        if seen.get(key, 1 << 30) <= depth:
+            merged += 1
+            continue
+        seen[key] = depth
         nodes += 1
         maxdepth = max(maxdepth, depth)
         if rf.is_converged(tol):
@@ -172,7 +192,7 @@ def _run_tree(case):
             if err:
                 return None, f"{err}; answers so far {_path((path, y))}"
             stack.append((child, depth + 1, (path, y)))
-    return (nodes, transitions, leaves, capped, maxdepth), None
+    return (nodes, transitions, leaves, capped, maxdepth, merged), None
 
 
 def _drive(case, f, horizon=100000):
@@ -242,8 +262,8 @@ def _run_case(case):
         stats, err = _run_tree(case)
         if err:
             return result(False, sig=f"tree|eps{case['eps']}", msg=f"{err} (bracket {case['bracket']}, tol {case['tol']}, ends {case['f_start']},{case['f_end']})", outcome="viol")
-        states, transitions, leaves, capped, maxdepth = stats
-        return result(True, outcome=[states, leaves, capped, maxdepth], states=states, transitions=transitions, extra={"capped_paths": capped})
+        states, transitions, leaves, capped, maxdepth, merged = stats
+        return result(True, outcome=[states, leaves, capped, maxdepth], states=states, transitions=transitions, extra={"capped_paths": capped, "merged": merged})
     if fam == "func":
         name = case["func"]
         if name == "steps":
